@@ -447,8 +447,23 @@ def _check_proto(run, world, folder, mod, c):
                             n.value, ast.List):
                     v = folder.eval(n.value.elts[0], {}, SER)
                     tx_start.append(v)
+        # receiver start byte: a test `<byte> == K` / `!= K` in state
+        # WAIT_START whose constant folds to the transmitted start byte
+        rx_start = set()
+        for n in ast.walk(fn):
+            if isinstance(n, ast.Compare) and len(n.ops) == 1 and isinstance(
+                    n.ops[0], (ast.Eq, ast.NotEq)) and unparse(
+                        n.left) == arg:
+                v_ = folder.eval(n.comparators[0], {}, SER)
+                if v_ is UNKNOWN and isinstance(
+                        n.comparators[0], ast.Call) and unparse(
+                            n.comparators[0].func) == "ord" and isinstance(
+                                n.comparators[0].args[0], ast.Constant):
+                    v_ = ord(n.comparators[0].args[0].value)
+                if isinstance(v_, int):
+                    rx_start.add(v_)
         run.ob("R-FSM-CHK", P + "#start-byte",
-               "%s == 89" % arg in start_tests and set(tx_start) == {0x59},
+               0x59 in rx_start and set(tx_start) == {0x59},
                "receiver start byte test %s vs transmitted start bytes %s"
                % ([t for t in start_tests if arg in t][:2], tx_start),
                where(mod, fn))
